@@ -190,13 +190,33 @@ def native_replay(reg, key, inputs):
     try:
         inputs = verify.unjson(inputs)
         if c.replay == "pure":
-            fn = runtime.resolve_real(key)
+            fn = runtime.resolve_real(key.split("#")[0])
             names = {k: runtime.to_native(v) for k, v in inputs.items()}
             nc = runtime.NativeContract(reg, c)
             import inspect
-            params = [p for p in inspect.signature(fn).parameters]
-            args = [names[p] for p in params if p in names]
+            sig = inspect.signature(fn)
+            args = []
+            for pn, pp in sig.parameters.items():
+                if pp.kind == inspect.Parameter.VAR_POSITIONAL:
+                    args += list(names.get(pn, []))
+                elif pn in names:
+                    args.append(names[pn])
             fails = nc.check_call(fn, args, {}, names)
+            if not fails and nc.errors:
+                return "no-replay", "; ".join(nc.errors)[:300]
+        elif c.replay == "method":
+            plain = key.split("#")[0]
+            obj = runtime.build_object(reg, c.self_model, inputs["self"])
+            meth = getattr(obj, plain.split(".")[-1])
+            names = {k: runtime.to_native(v) for k, v in inputs.items() if k != "self"}
+            names["self"] = obj
+            nc = runtime.NativeContract(reg, c)
+            import inspect
+            params = [p for p in inspect.signature(meth).parameters]
+            args = [names[p] for p in params if p in names]
+            fails = nc.check_call(meth, args, {}, names)
+            if not fails and nc.errors:
+                return "no-replay", "clauses mention ghost state: " + "; ".join(nc.errors)[:300]
         else:
             fails = c.replay(reg, c, inputs)
         if fails is None:
